@@ -14,6 +14,7 @@ package c11
 
 import (
 	"encoding/json"
+	"fmt"
 	"os"
 	"sort"
 	"strconv"
@@ -23,14 +24,17 @@ import (
 	"github.com/caddyserver/caddy/v2/caddyconfig/caddyfile"
 	"github.com/caddyserver/caddy/v2/caddyconfig/httpcaddyfile"
 	"github.com/caddyserver/caddy/v2/modules/caddyhttp"
+	"github.com/caddyserver/caddy/v2/modules/caddytls"
+	"github.com/caddyserver/certmagic"
 
 	"verif/harness/internal/core"
 )
 
-type cfSite struct{ scheme, name, port int }
+type cfSite struct{ scheme, name, port, tls int } // tls 1 = `tls internal` in the block
 
 type cfCase struct {
-	hp, sp int
+	tlsT, tlsA string // what the adapter emitted for the TLS app (carried by the line, re-checked by Run)
+	hp, sp     int
 	opts   []bool
 	names  []string
 	sites  []cfSite
@@ -39,10 +43,13 @@ type cfCase struct {
 var cfOptNames = []string{"off", "disable_redirects", "disable_certs", "ignore_loaded_certs"}
 
 func parseCF(f []string) (*cfCase, bool) {
-	if len(f) != 6 || f[0] != "cf" {
+	if len(f) != 8 || f[0] != "cf" {
 		return nil, false
 	}
-	c := &cfCase{}
+	c := &cfCase{tlsT: f[6], tlsA: f[7]}
+	if !cfTLSFieldOK(c.tlsT) || c.tlsA != "-" {
+		return nil, false
+	}
 	var ok bool
 	if c.hp, ok = nat(f[1]); !ok || c.hp >= 65536 {
 		return nil, false
@@ -75,7 +82,11 @@ func parseCF(f []string) (*cfCase, bool) {
 	}
 	for _, ss := range strings.Split(f[5], ";") {
 		p := strings.Split(ss, ".")
-		if len(p) != 3 {
+		if len(p) != 4 {
+			return nil, false
+		}
+		tl, ok4 := nat(p[3])
+		if !ok4 || tl > 1 {
 			return nil, false
 		}
 		a, ok1 := nat(p[0])
@@ -87,7 +98,7 @@ func parseCF(f []string) (*cfCase, bool) {
 		if b == 0 && d == 0 {
 			return nil, false // a site address needs a host or a port
 		}
-		c.sites = append(c.sites, cfSite{a, b, d})
+		c.sites = append(c.sites, cfSite{a, b, d, tl})
 	}
 	if len(c.sites) > 8 {
 		return nil, false
@@ -132,7 +143,11 @@ func (c *cfCase) text() string {
 		if s.port != 0 {
 			key += ":" + strconv.Itoa(s.port)
 		}
-		sb.WriteString(key + " {\n\trespond \"k" + strconv.Itoa(i) + "\"\n}\n")
+		tl := ""
+		if s.tls == 1 {
+			tl = "\ttls internal\n"
+		}
+		sb.WriteString(key + " {\n" + tl + "\trespond \"k" + strconv.Itoa(i) + "\"\n}\n")
 	}
 	return sb.String()
 }
@@ -300,7 +315,15 @@ func runCF(line string, f []string) core.Outcome {
 	for _, s := range srvs {
 		parts = append(parts, s.s)
 	}
-	return core.Outcome{Impl: "ok " + joinOr(";", parts), Tags: tags, Failures: fails}
+	tlsSum, tlsTags := c.tlsAppSummary(out)
+	tags = append(tags, tlsTags...)
+	if tlsSum != "T="+c.tlsT+" A="+c.tlsA {
+		// the line does not carry what the adapter emits for this Caddyfile
+		return core.Outcome{Impl: "bad-op:stale-tls-app " + tlsSum, Tags: []string{"cf:stale"}}
+	}
+	prov, provFails := c.provisionAdapted(out)
+	fails = append(fails, provFails...)
+	return core.Outcome{Impl: "ok " + joinOr(";", parts) + " " + tlsSum + " | " + prov, Tags: tags, Failures: fails}
 }
 
 var cfNamePool = []string{"a.test", "b.test", "c.example.com", "*.w.test", "x.w.test", "localhost", "10.0.0.1", "node.ts.net", "h.internal"}
@@ -345,11 +368,331 @@ func genCF(rng *core.Rand) string {
 		if name == 0 && port == 0 {
 			port = 8443
 		}
-		sites = append(sites, strconv.Itoa(scheme)+"."+strconv.Itoa(name)+"."+strconv.Itoa(port))
+		tl := 0
+		if rng.Chance(1, 4) {
+			tl = 1
+		}
+		sites = append(sites, strconv.Itoa(scheme)+"."+strconv.Itoa(name)+"."+strconv.Itoa(port)+"."+strconv.Itoa(tl))
 	}
 	var hn []string
 	for _, n := range names {
 		hn = append(hn, core.Hex(n))
 	}
 	return "cf " + strconv.Itoa(hp) + " " + strconv.Itoa(sp) + " " + opts + " " + strings.Join(hn, ";") + " " + strings.Join(sites, ";")
+}
+
+// tlsAppSummary: the TLS app the adapter emits (buildTLSApp): automation policies (subjects,
+// issuers) and the names of the `automate` certificate loader.
+//
+//	T=<subject idx,…|->/<issuer kinds|->;…  A=<idx,…|->
+func (c *cfCase) tlsAppSummary(out []byte) (string, []string) {
+	var cfg struct {
+		Apps struct {
+			TLS *struct {
+				Automation *struct {
+					Policies []struct {
+						Subjects []string          `json:"subjects"`
+						Issuers  []json.RawMessage `json:"issuers"`
+						OnDemand bool              `json:"on_demand"`
+					} `json:"policies"`
+				} `json:"automation"`
+				Certificates map[string]json.RawMessage `json:"certificates"`
+			} `json:"tls"`
+		} `json:"apps"`
+	}
+	json.Unmarshal(out, &cfg)
+	idx := func(s string) int {
+		for i, n := range c.names {
+			if n == s {
+				return i
+			}
+		}
+		return 999
+	}
+	set := func(l []string) string {
+		var is []int
+		for _, x := range l {
+			is = append(is, idx(x))
+		}
+		sort.Ints(is)
+		var o []string
+		for i, x := range is {
+			if i == 0 || is[i-1] != x {
+				o = append(o, strconv.Itoa(x))
+			}
+		}
+		return joinOr(",", o)
+	}
+	var pols []string
+	var tags []string
+	autom := "-"
+	if t := cfg.Apps.TLS; t != nil {
+		if t.Automation != nil {
+			for _, p := range t.Automation.Policies {
+				iss := ""
+				for _, raw := range p.Issuers {
+					var m struct {
+						Module string `json:"module"`
+					}
+					json.Unmarshal(raw, &m)
+					switch m.Module {
+					case "internal":
+						iss += "i"
+					case "acme":
+						iss += "a"
+					default:
+						iss += "x"
+					}
+				}
+				if iss == "" {
+					iss = "-"
+				}
+				od := ""
+				if p.OnDemand {
+					od = "+ondemand"
+				}
+				pols = append(pols, set(p.Subjects)+"/"+iss+od)
+			}
+			tags = append(tags, "cf:tls-automation-policy")
+		}
+		if raw, ok := t.Certificates["automate"]; ok {
+			var l []string
+			json.Unmarshal(raw, &l)
+			autom = set(l)
+			tags = append(tags, "cf:automate-loader")
+		}
+		for k := range t.Certificates {
+			if k != "automate" {
+				autom += "+" + k
+			}
+		}
+	}
+	return "T=" + joinOr(";", pols) + " A=" + autom, tags
+}
+
+// provisionAdapted provisions the JSON the adapter produced (only logging and storage are
+// injected) through caddy.ProvisionContext, runs phase 2, and reports what automatic HTTPS
+// made of the Caddyfile:  c=<allCertDomains bit per name> p=<policies> m=<TLS.managing per name>
+func (c *cfCase) provisionAdapted(out []byte) (res string, fails []core.Failure) {
+	defer func() {
+		if r := recover(); r != nil {
+			res = "panic"
+			fails = append(fails, core.Failure{Class: "caddyfile:provision-panic", What: fmt.Sprint(r)})
+		}
+	}()
+	var m map[string]json.RawMessage
+	if err := json.Unmarshal(out, &m); err != nil {
+		return "perr:json", nil
+	}
+	m["logging"] = json.RawMessage(`{"logs":{"default":{"writer":{"output":"discard"},"level":"ERROR"}}}`)
+	m["storage"] = json.RawMessage(`{"module":"file_system","root":` + jstr(privateStorage()) + `}`)
+	raw, _ := json.Marshal(m)
+	var cfg caddy.Config
+	if err := json.Unmarshal(raw, &cfg); err != nil {
+		return "perr:json", nil
+	}
+	ctx, err := caddy.ProvisionContext(&cfg)
+	if err != nil {
+		if os.Getenv("C11_CFDBG") != "" {
+			println("CFPERR:", err.Error())
+		}
+		return "perr", nil
+	}
+	defer caddy.VerifCancelConfig(&cfg)
+	appI, e1 := ctx.App("http")
+	tlsI, e2 := ctx.App("tls")
+	if e1 != nil || e2 != nil {
+		return "perr:apps", nil
+	}
+	app := appI.(*caddyhttp.App)
+	tlsApp := tlsI.(*caddytls.TLS)
+	certs := app.VerifAllCertDomains()
+	idx := func(s string) int {
+		for i, n := range c.names {
+			if n == s {
+				return i
+			}
+		}
+		return -1
+	}
+	cb := ""
+	for _, n := range c.names {
+		cb += b01(has(certs, n))
+	}
+	for _, d := range certs {
+		if idx(d) < 0 {
+			cb += "!"
+			break
+		}
+	}
+	var pols []string
+	var opols []opolicy
+	if tlsApp.Automation != nil {
+		for _, ap := range tlsApp.Automation.Policies {
+			var is []int
+			for _, sj := range ap.Subjects() {
+				is = append(is, idx(sj))
+			}
+			sort.Ints(is)
+			var o []string
+			for _, x := range is {
+				o = append(o, strconv.Itoa(x))
+			}
+			iss := ""
+			for _, i := range ap.Issuers {
+				switch i.(type) {
+				case *caddytls.InternalIssuer:
+					iss += "i"
+				case *caddytls.ACMEIssuer:
+					iss += "a"
+				default:
+					iss += "x"
+				}
+			}
+			opols = append(opols, opolicy{subjects: append([]string(nil), ap.Subjects()...), issuers: iss, managers: len(ap.Managers)})
+			if iss == "" {
+				iss = "-"
+			}
+			pols = append(pols, joinOr(",", o)+"/"+iss+"/"+strconv.Itoa(len(ap.Managers)))
+		}
+	}
+	mg := ""
+	if err := app.VerifPhase2(); err != nil {
+		mg = "err"
+	} else {
+		managing := tlsApp.VerifManaging()
+		for _, n := range c.names {
+			key, ok := managing[n]
+			switch {
+			case !ok:
+				mg += "0"
+			case key != "":
+				mg += "i"
+			default:
+				mg += "a"
+			}
+		}
+		// implementation-only, the property's clauses across the Caddyfile glue:
+		// (1) a managed name no public CA can certify resolves to the internal issuer
+		for _, d := range certs {
+			if certmagic.SubjectQualifiesForPublicCert(d) || strings.HasSuffix(strings.ToLower(d), ".ts.net") {
+				continue
+			}
+			if p := policyFor(opols, d); p == nil || p.issuers != "i" {
+				got := "none"
+				if p != nil {
+					got = p.issuers
+				}
+				fails = append(fails, core.Failure{Class: "caddyfile:non-public-name-without-internal-issuer", What: fmt.Sprintf("%q cannot get a public certificate; the policy that applies to it has issuers %q", d, got)})
+				break
+			}
+		}
+		// (2) every named site that is not written http://, not on the HTTP port, with certificates
+		// not switched off, is handed to certificate management (or a managed wildcard covers it)
+		if !c.opts[0] && !c.opts[2] {
+			for _, st := range c.sites {
+				sp := st.port
+				if sp == 0 {
+					sp = effPort(c.sp, 443)
+					if st.scheme == 1 {
+						sp = effPort(c.hp, 80)
+					}
+				}
+				if st.name == 0 || st.scheme == 1 || sp == effPort(c.hp, 80) {
+					continue
+				}
+				n := c.names[st.name]
+				twin := false
+				for _, u := range c.sites {
+					up := u.port
+					if up == 0 {
+						up = effPort(c.sp, 443)
+						if u.scheme == 1 {
+							up = effPort(c.hp, 80)
+						}
+					}
+					if u.scheme == 1 && u.name == st.name && up == sp {
+						twin = true
+					}
+				}
+				if twin || !certmagic.SubjectQualifiesForCert(n) {
+					continue
+				}
+				isTS := strings.HasSuffix(strings.ToLower(n), ".ts.net")
+				if !has(certs, n) && !isTS {
+					fails = append(fails, core.Failure{Class: "caddyfile:named-https-site-not-managed", What: fmt.Sprintf("site %q (port %d) is not in allCertDomains %v", n, sp, certs)})
+					break
+				}
+				if _, ok := managing[n]; !ok && !isTS {
+					covered := false
+					for w := range managing {
+						if strings.Contains(w, "*") && certmagic.MatchWildcard(n, w) {
+							covered = true
+						}
+					}
+					if !covered {
+						fails = append(fails, core.Failure{Class: "caddyfile:named-https-site-not-handed-to-certmagic", What: fmt.Sprintf("site %q: Manage took on %v", n, managing)})
+						break
+					}
+				}
+			}
+		}
+		// (3) auto_https off / disable_certs: nothing is managed
+		if (c.opts[0] || c.opts[2]) && len(certs) > 0 {
+			fails = append(fails, core.Failure{Class: "caddyfile:certificates-managed-although-switched-off", What: fmt.Sprintf("allCertDomains %v", certs)})
+		}
+	}
+	return "c=" + cb + " p=" + joinOr(";", pols) + " m=" + mg, fails
+}
+
+// cfTLSFieldOK: `-` or `;`-joined  <idx,…|->/<string over {i,a}|->
+func cfTLSFieldOK(t string) bool {
+	if t == "-" {
+		return true
+	}
+	for _, p := range strings.Split(t, ";") {
+		q := strings.Split(p, "/")
+		if len(q) != 2 {
+			return false
+		}
+		if _, ok := natList(q[0], ","); !ok {
+			return false
+		}
+		if q[1] != "-" && strings.Trim(q[1], "ia") != "" {
+			return false
+		}
+	}
+	return true
+}
+
+// cfLine completes a generated Caddyfile case with the TLS app the real adapter emits for it
+// (empty string if the adapter rejects it or emits something outside the protocol).
+func cfLine(base string) string {
+	f := strings.Fields(base + " - -")
+	c, ok := parseCF(f)
+	if !ok {
+		return base + " - -"
+	}
+	adapter := caddyfile.Adapter{ServerType: httpcaddyfile.ServerType{}}
+	out, _, err := adapter.Adapt([]byte(c.text()), nil)
+	if err != nil {
+		if strings.Contains(err.Error(), "automation policy") {
+			return "" // rejected by buildTLSApp's policy checks, which are outside the model
+		}
+		return base + " - -"
+	}
+	sum, _ := c.tlsAppSummary(out)
+	g := strings.Fields(sum)
+	t, a := strings.TrimPrefix(g[0], "T="), strings.TrimPrefix(g[1], "A=")
+	if !cfTLSFieldOK(t) || a != "-" {
+		return ""
+	}
+	return base + " " + t + " " + a
+}
+
+func effPort(x, d int) int {
+	if x == 0 {
+		return d
+	}
+	return x
 }
